@@ -350,6 +350,23 @@ fn random_history(t: &mut Tape, gates: &Gates) -> Vec<Note> {
             }
             docs[u].push(text);
         }
+        // now and then a document that declares a name which a document of the OTHER URI declares
+        // too (at another offset): which of the two is "the duplicate" must be a matter of the
+        // contents, not of which document was opened or changed first
+        if t.ratio(1, 5) {
+            let shared = *t.pick(&[
+                "PROGRAM shared_p\nVAR\nq : INT;\nEND_VAR\nq := 1;\nEND_PROGRAM\n",
+                "TYPE\nshared_t : (sa, sb);\nEND_TYPE\n",
+                "FUNCTION_BLOCK shared_fb\nVAR_INPUT\ni : INT;\nEND_VAR\nEND_FUNCTION_BLOCK\n",
+                "FUNCTION shared_f : INT\nVAR_INPUT\ni : INT;\nEND_VAR\nshared_f := i;\nEND_FUNCTION\n",
+            ]);
+            let own = docs[u].iter().find(|d| d.contains("END_")).cloned().unwrap_or_default();
+            docs[u].push(match t.below(3) {
+                0 => format!("{}{}", shared, own),
+                1 => format!("{}{}", own, shared),
+                _ => format!("\n\n   {}", shared),
+            });
+        }
         // now and then a document with a great many diagnostics of its own (a rule that reports every
         // occurrence): nothing is cut off, in this document or in the other one
         if t.ratio(1, 8) {
